@@ -50,35 +50,7 @@ def r1(ctx):
     if not rets:
         raise AnalysisBroken('qb_loop_timer_msec_duration_to_expire: no return value')
     for ev in rets:
-        e = ev.e
-        inner = unwrap(e)
-        ity = inner.get('ty')
-        ib, isg = _int(prog, ity)
-        narrowing = (ib or 0) > (rb or 0) or ((ib == rb) and isg != rs)
-        if not narrowing:
-            ctx.ok('R1', 'return-conversion', ev, 'no narrowing at the return (%s -> %s)' % (ity, f.ret))
-            continue
-        if inner.get('k') != 'var':
-            ctx.inconclusive('R1', 'return-conversion', ev, 'narrowing of a non-variable expression %s' % estr(inner))
-            continue
-
-        def rhs_range(rhs, ib=ib, isg=isg):
-            r = unwrap(rhs)
-            if callee_of(r) == 'timerlist_msec_duration_to_expire':
-                return None      # full range of the type
-            return None
-        at, _IN = var_ranges(f, inner['n'], ib, isg, rhs_range)
-        iv = at.get((ev.blk, ev.idx))
-        if iv is None:
-            ctx.inconclusive('R1', 'return-conversion', ev, 'no range at the return')
-            continue
-        sentinel = (1 << ib) - 1 if not isg else -1
-        bad = [(lo, hi) for (lo, hi) in iv if not (0 <= lo and hi <= I32_MAX) and not (lo == hi == sentinel)]
-        ctx.check('R1', 'return-conversion', not bad, ev,
-                  'range of %s at the %s -> %s conversion is %s: within [0, INT32_MAX] or the -1 sentinel' % (inner['n'], ity, f.ret, list(iv)),
-                  'the %s -> %s conversion of %s can see %s: a duration >= 2^31 ms becomes a negative poll timeout (block forever) or wraps' % (
-                      ity, f.ret, inner['n'], ['[%#x, %#x]' % b for b in bad]),
-                  {'ranges': [list(x) for x in iv]})
+        _return_conversions(ctx, prog, f, ev, rb, rs)
     # the rest of the chain has no narrowing: ms_timeout type, slot parameter type, epoll_wait argument
     run = prog.fn('qb_loop_run')
     polls = [ev for ev in run.calls('qb_loop_source::poll') if 'fd_source' in estr(ev.e)]
@@ -107,6 +79,97 @@ def r1(ctx):
                 ok = estr(t) == g.params[1]['n'] and not conv
                 ctx.check('R1', 'kernel-arg:%s' % n, ok, ev, '%s receives the timeout parameter unconverted' % ev.callee,
                           '%s receives %s' % (ev.callee, estr(t, True)))
+
+
+def _type_range(prog, ty):
+    b, sg = _int(prog, ty)
+    if not b:
+        return None
+    return ((-(1 << (b - 1)), (1 << (b - 1)) - 1),) if sg else ((0, (1 << b) - 1),)
+
+
+def _return_conversions(ctx, prog, f, ev, rb, rs):
+    """every conversion to a 32-bit (or narrower) integer anywhere in the returned expression - the implicit one at the return as well
+    as casts inside a conditional expression - sees an operand that is within [0, INT32_MAX] or is the "no timer" sentinel.
+    Ranges: locals by the forward interval analysis, refined by the conditions of enclosing ?: operators."""
+    from engine.qb import _iv_norm, _iv_meet, _iv_minus_point
+    names = {n['n'] for n in walk(ev.e) if n.get('k') == 'var' and n.get('sc') == 'l'}
+    env = {}
+    for nm in names:
+        ty = next(n.get('ty') for n in walk(ev.e) if n.get('k') == 'var' and n['n'] == nm)
+        b, sg = _int(prog, ty)
+        if not b:
+            continue
+        at, _IN = var_ranges(f, nm, b, sg, None)
+        iv = at.get((ev.blk, ev.idx))
+        if iv is not None:
+            env[nm] = (iv, b, sg)
+    found = []
+
+    def refine(env, cond, sense):
+        out = dict(env)
+        for a in atoms_of(cond, sense):
+            l = unwrap(a.l)
+            if l.get('k') == 'var' and l['n'] in out and a.rc is not None:
+                iv, b, sg = out[l['n']]
+                lo_t, hi_t = (-(1 << (b - 1)), (1 << (b - 1)) - 1) if sg else (0, (1 << b) - 1)
+                c = a.rc
+                if not sg and c < 0:
+                    c += 1 << b
+                iv = {'==': lambda: _iv_meet(iv, c, c), '!=': lambda: _iv_minus_point(iv, c), '<': lambda: _iv_meet(iv, lo_t, c - 1),
+                      '<=': lambda: _iv_meet(iv, lo_t, c), '>': lambda: _iv_meet(iv, c + 1, hi_t), '>=': lambda: _iv_meet(iv, c, hi_t)}[a.op]()
+                out[l['n']] = (iv, b, sg)
+        return out
+
+    def rng(e, env):
+        if not isinstance(e, dict):
+            return None
+        k = e.get('k')
+        c = cval(e) if k != 'cast' else None
+        if c is not None:
+            return ((c, c),)
+        if k == 'var':
+            return env[e['n']][0] if e['n'] in env else _type_range(prog, e.get('ty'))
+        if k == 'cond':
+            t = rng(e['t'], refine(env, e['c'], True))
+            fl = rng(e['f'], refine(env, e['c'], False))
+            if t is None or fl is None:
+                return None
+            return _iv_norm(list(t) + list(fl))
+        if k == 'cast':
+            inner = rng(e['e'], env)
+            tb, ts = _int(prog, e.get('ty'))
+            tr = _type_range(prog, e.get('ty'))
+            if tr is None:
+                return inner
+            ib, isg = _int(prog, (e['e'] or {}).get('ty')) if isinstance(e['e'], dict) else (None, None)
+            if tb <= 32 and ib and (ib > tb or (ib == tb and isg != ts)):
+                found.append((e, inner if inner is not None else _type_range(prog, e['e'].get('ty')), ib, isg))
+            if inner is not None and all(tr[0][0] <= lo and hi <= tr[0][1] for (lo, hi) in inner):
+                return inner
+            if inner is not None and not ts and all(-(1 << (tb - 1)) <= lo and hi < 0 for (lo, hi) in inner):
+                return _iv_norm([(lo + (1 << tb), hi + (1 << tb)) for (lo, hi) in inner])     # e.g. (unsigned long)-1
+            return tr
+        if k == 'call' and e.get('fn') == '__builtin_expect':
+            return rng(e['args'][0], env)
+        if k == 'stmtexpr' and 'last' in e:
+            return rng(e['last'], env)
+        return _type_range(prog, e.get('ty'))
+
+    rng(ev.e, env)
+    if not found:
+        ctx.ok('R1', 'return-conversion', ev, 'no narrowing conversion in the returned expression %s' % estr(ev.e, True))
+        return
+    for (node, iv, ib, isg) in found:
+        if iv is None:
+            ctx.inconclusive('R1', 'return-conversion', ev, 'no range for the operand of %s' % estr(node, True))
+            continue
+        sentinels = {-1, (1 << ib) - 1}
+        bad = [(lo, hi) for (lo, hi) in iv if not (0 <= lo and hi <= I32_MAX) and not (lo == hi and lo in sentinels)]
+        ctx.check('R1', 'return-conversion', not bad, ev,
+                  'the operand of the conversion %s is within %s: [0, INT32_MAX] or the -1 sentinel' % (estr(node, True), list(iv)),
+                  'the conversion %s can see %s: a duration >= 2^31 ms becomes a negative poll timeout (block forever) or wraps' % (
+                      estr(node, True), ['[%#x, %#x]' % b for b in bad]), {'ranges': [list(x) for x in iv]})
 
 
 def r2(ctx):
